@@ -154,7 +154,10 @@ impl<'tcx> Cx<'tcx> {
             ty::Tuple(ts) => obj(vec![("k", esc("tuple")), ("ts", arr(ts.iter().map(|x| self.ty_tree(x)).collect()))]),
             ty::Param(p) => obj(vec![("k", esc("param")), ("n", esc(p.name.as_str()))]),
             ty::Slice(inner) => obj(vec![("k", esc("slice")), ("t", self.ty_tree(*inner))]),
-            ty::Array(inner, n) => obj(vec![("k", esc("array")), ("t", self.ty_tree(*inner)), ("len", esc(&format!("{}", n)))]),
+            ty::Array(inner, n) => {
+                let l = n.try_to_target_usize(self.tcx).map(|x| x.to_string()).unwrap_or_else(|| format!("{}", n));
+                obj(vec![("k", esc("array")), ("t", self.ty_tree(*inner)), ("len", esc(&l))])
+            }
             ty::Alias(at) => {
                 let mut a = vec![];
                 for ga in at.args.iter() {
@@ -506,8 +509,22 @@ impl<'tcx> Cx<'tcx> {
                     _ => {
                         let s = ty::print::with_no_trimmed_paths!(format!("{}", c.const_));
                         fields.push(("v", esc(&s)));
-                        // integer / bool / char scalars as exact values
-                        if let Some(si) = c.const_.try_to_scalar_int() {
+                        // integer / bool / char scalars as exact values (named constants are evaluated)
+                        let env = TypingEnv::post_analysis(self.tcx, body_def);
+                        let evald = if t.is_integral() || t.is_bool() || t.is_char() || t.is_floating_point() {
+                            std::panic::catch_unwind(std::panic::AssertUnwindSafe(|| c.const_.try_eval_scalar_int(self.tcx, env))).ok().flatten()
+                        } else {
+                            None
+                        };
+                        if t.is_floating_point() {
+                            if let Some(si) = evald {
+                                let size = si.size();
+                                let raw = si.to_bits(size);
+                                let fv: f64 = if size.bytes() == 8 { f64::from_bits(raw as u64) } else { f32::from_bits(raw as u32) as f64 };
+                                fields.push(("float", esc(&format!("{:e}", fv))));
+                            }
+                        }
+                        if let Some(si) = evald {
                             if t.is_integral() || t.is_bool() || t.is_char() {
                                 let size = si.size();
                                 let raw = si.to_bits(size);
